@@ -103,7 +103,7 @@ def configs(tier):
         add(group='base', d=2, q=1, m=0, T=3, mode=mode, imputer='joint', storage='batch', labels=2)
         add(group='base', d=2, q=1, m=2, T=3, mode=mode, imputer='joint', storage='batch')
         add(group='base', d=2, q=1, m=1, T=3, mode=mode, imputer='default', storage='interval', cap=2, storage_fault=True, _cost=100)
-        add(group='base', d=2, q=2, m=0, T=6 if tier == 'quick' else 8, mode=mode, imputer='default', storage='geometric', cap=2,
+        add(group='base', d=2, q=2, m=0, T=6 if tier == 'quick' else 7, mode=mode, imputer='default', storage='geometric', cap=2,
             alpha_value='1/4', _cost=200)
     return cfgs
 
